@@ -13,6 +13,8 @@ import Martian.Determinism
 import Martian.DeterminismAccum
 import Proofs.Determinism
 import Proofs.DeterminismAccum
+import Martian.DeterminismAccum2
+import Proofs.DeterminismAccum2
 import Gen.Facts
 
 namespace Props.C10
@@ -21,11 +23,13 @@ open Martian.Determinism Martian.SortKeys List
 /-- Regenerated obligation: every `range` over a map in martian/syntax and
 martian/core is a site whose statement was reviewed (a new site, or a site whose
 statement changed since the review, breaks this). -/
-theorem all_map_range_sites_reviewed : Gen.c10Unreviewed = [] := by decide
+theorem all_map_range_sites_reviewed :
+    Gen.c10Unreviewed_extracted = true ∧ Gen.c10Unreviewed = [] := by decide
 
 /-- Regenerated obligation: no reviewed site lets the iteration order reach
 compiler / formatter / call-graph output. -/
-theorem no_order_dependent_output_site : Gen.c10OrderDependent = [] := by decide
+theorem no_order_dependent_output_site :
+    Gen.c10OrderDependent_extracted = true ∧ Gen.c10OrderDependent = [] := by decide
 
 /-- The site list is not vacuous (the type-checker found the maps). -/
 theorem map_range_sites_found : 100 ≤ Gen.c10MapRangeCount := by decide
@@ -176,6 +180,16 @@ theorem accumulate_agrees_with_unsorted (l : List (Key × EntryRes)) (hn : nodup
   have := accumulateIn_order_independent_up_to_error_order (sortK l) l hp hn'
   exact ⟨this.1, this.2.1, this.2.2.1⟩
 
+/-! ### per-site NAMES of `accumulate_order_independent` (documentation, not additional guarantees)
+
+Audit MEDIUM-1: the five theorems below are ONE statement (`accumulate l₁ = accumulate l₂`,
+i.e. `accumulate_order_independent`) under the names of the Go loops that have this shape after
+their fixes: `invertSplit`, `wrapDisabled`, `MergeExp.BindingPath`, `CallGraphStage/Pipeline.unsplit`,
+`Node.resolveInputs` / `TopNode.resolveMap`.  Nothing in Lean distinguishes the sites: what ties
+each Go function to `accumulate` is the differential `C10.accum` (the real function's per-entry
+contributions fed to the model, for the first four) and the provocations (all of them).  They
+count as one guarantee. -/
+
 /-- `invertSplit` (split_expression.go, MapExp branch; fix 3cfd1e8) -/
 theorem invertSplit_order_independent (l₁ l₂ : List (Key × EntryRes)) (h : l₁.Perm l₂)
     (hn : nodupKeys l₁ = true) :
@@ -259,5 +273,241 @@ example : JTree.Reorder
     (.ocons [98] [34, 98, 34] (.leaf [51]) (.ocons [97] [34, 97, 34] (inner 121 120) .onil)) :=
   .trans (.congr _ _ (.swap ..) (.refl _)) (.swap ..)
 example : ([[99], [97], [98]] : List Key).Perm [[97], [98], [99]] := by decide
+
+/-! ## Iterator forms of map iteration (extractor round)
+
+The site list is no longer limited to `range` statements: `maps.Keys/Values/All/…`,
+`slices.Collect(maps.…)`, `slices.Sorted(maps.Keys(..))`, `reflect` `MapKeys`/`MapRange`,
+`sync.Map.Range` and `range` over a function / over an expression of unknown type are
+sites too (extract/maprange.go).  A new such site is `c10Unreviewed` (above). -/
+
+/-- Regenerated obligation: every reviewed site of corpus/C10/map_range_sites.json is still
+found.  A reviewed loop that DISAPPEARS (deleted, or rewritten in another form such as
+`slices.Collect(maps.Keys(m))`) breaks this until a reviewer moves the entry to
+`resolved_sites` with the outcome. -/
+theorem no_reviewed_site_vanished : Gen.c10Vanished = [] := by decide
+
+/-- The recognisers are not vacuous: on the extractor's embedded sample package every form
+is found, both with full type information (`typed`) and when no import resolves at all
+(`untyped`: syntactic recognition through the import table; only `sync.Map.Range` needs the
+receiver type).  Entry = `mode function:form expression [auto class]`. -/
+theorem iterator_forms_recognised : Gen.c10IterFormsRecognised = [
+    "typed T.Keys:maps.Keys maps.Keys(t.m) [other]",
+    "typed var pkgLevel:maps.Keys slices.Collect(maps.Keys(m)) [other]",
+    "typed f:maps.Keys slices.Collect(maps.Keys(m)) [other]",
+    "typed f:maps.Keys slices.Sorted(maps.Keys(m)) [keys-collected-then-sorted]",
+    "typed f:maps.Keys slices.SortedFunc(maps.Keys(m), strings.Compare) [keys-collected-then-sorted]",
+    "typed f:maps.Values slices.Collect(maps.Values(m)) [keys-collected-then-sorted]",
+    "typed f:maps.All maps.All(m) [other]",
+    "typed f:maps.All maps.Collect(maps.All(m)) [map-or-set-insert]",
+    "typed f:maps.All maps.Insert(e, maps.All(m)) [map-or-set-insert]",
+    "typed f:reflect.MapKeys v.MapKeys() [other]",
+    "typed f:reflect.MapRange v.MapRange() [other]",
+    "typed f:range-func t.Keys() [other]",
+    "typed f:maps.Clone maps.Clone(m) [map-or-set-insert]",
+    "typed f:sync.Map.Range sm.Range [other]",
+    "typed f:range m [other]",
+    "typed f:maps.Keys maps.Keys [other]",
+    "typed f:maps.Keys slices.Sorted(maps.Keys(m)) [keys-collected-then-sorted]",
+    "untyped T.Keys:maps.Keys maps.Keys(t.m) [other]",
+    "untyped var pkgLevel:maps.Keys slices.Collect(maps.Keys(m)) [other]",
+    "untyped f:maps.Keys slices.Collect(maps.Keys(m)) [other]",
+    "untyped f:maps.Keys slices.Sorted(maps.Keys(m)) [keys-collected-then-sorted]",
+    "untyped f:maps.Keys slices.SortedFunc(maps.Keys(m), strings.Compare) [keys-collected-then-sorted]",
+    "untyped f:maps.Values slices.Collect(maps.Values(m)) [keys-collected-then-sorted]",
+    "untyped f:maps.All maps.All(m) [other]",
+    "untyped f:maps.All maps.Collect(maps.All(m)) [map-or-set-insert]",
+    "untyped f:maps.All maps.Insert(e, maps.All(m)) [map-or-set-insert]",
+    "untyped f:reflect.MapKeys v.MapKeys() [other]",
+    "untyped f:reflect.MapRange v.MapRange() [other]",
+    "untyped f:range-untyped t.Keys() [other]",
+    "untyped f:maps.Clone maps.Clone(m) [map-or-set-insert]",
+    "untyped f:range m [other]",
+    "untyped f:maps.Keys maps.Keys [other]",
+    "untyped f:maps.Keys slices.Sorted(maps.Keys(m)) [keys-collected-then-sorted]"] := by rfl
+
+/-- the vanished-site obligation is about a non-empty reviewed list -/
+example : ["core/fork.go:ForkId.expandStaticForkPart:range keyMap#2"] ≠ ([] : List String) := by decide
+
+/-! ## Site programme, round 2 (x-c18/c10): loops whose effect is not an error list
+
+Model: `Martian/DeterminismAccum2.lean`.  General shape theorems first (each states
+EXACTLY the condition under which the unsorted loop is order-independent), then the
+sites. -/
+
+/-- GENERAL (at most one entry): a map with at most one entry has one iteration order
+(`Parser.FixIncludes` / `fixIncludes` over `source.Files` of a freshly parsed file). -/
+theorem singleton_order_independent {α : Type} (l₁ l₂ : List α) (h : l₁.Perm l₂)
+    (h1 : l₁.length ≤ 1) : l₁ = l₂ := by
+  match l₁, l₂, h1, h with
+  | [], l₂, _, h => exact (h.symm.eq_nil).symm
+  | [a], l₂, _, h => exact (perm_singleton.mp h.symm).symm
+  | _ :: _ :: _, _, h1, _ => simp at h1
+
+/-- GENERAL (every entry contributes the SAME message): a list of identical messages
+appended in map order is the same list in every order (`Modifiers.compile`: the message
+names the call, not the binding). -/
+theorem identicalMessages_order_independent {α : Type} (c : α) (l₁ l₂ : List α) (h : l₁.Perm l₂)
+    (hc : ∀ x ∈ l₁, x = c) : l₁ = l₂ := by
+  have h1 : l₁ = List.replicate l₁.length c := List.eq_replicate_iff.mpr ⟨rfl, hc⟩
+  have h2 : l₂ = List.replicate l₂.length c :=
+    List.eq_replicate_iff.mpr ⟨rfl, fun x hx => hc x (h.mem_iff.mpr hx)⟩
+  rw [h1, h2, h.length_eq]
+
+/-- GENERAL (take the first entry met, all entries agree on what is used of them):
+`for _, e := range m { return g(e) }` does not depend on the order when `g` is the
+same for every entry (`Ast.format`: every file leads to the same top-level file). -/
+theorem firstOfEquals_order_independent {α β : Type} (g : α → β) (c : β) (l₁ l₂ : List α)
+    (h : l₁.Perm l₂) (hc : ∀ x ∈ l₁, g x = c) : l₁.head?.map g = l₂.head?.map g := by
+  cases l₁ with
+  | nil => rw [h.symm.eq_nil]
+  | cons a r =>
+    cases l₂ with
+    | nil => exact absurd h.eq_nil (by simp)
+    | cons b r' =>
+      have hb : b ∈ a :: r := h.mem_iff.mpr (by simp)
+      simp [hc a (by simp), hc b hb]
+
+/-- GENERAL (insert under a COMPUTED key): `res[kf(p)] = vf(p)` for every entry builds
+the same map in every order EXACTLY WHEN entries that compute the same key carry the
+same value (then no overwrite can change anything). -/
+theorem insertKeyed_order_independent {α V : Type} (kf : α → Key) (vf : α → V) (l₁ l₂ : List α)
+    (h : l₁.Perm l₂) (hc : ∀ p ∈ l₁, ∀ q ∈ l₁, kf p = kf q → vf p = vf q) (k : Key) :
+    lookupL k (insertKeyed kf vf l₁) = lookupL k (insertKeyed kf vf l₂) := by
+  unfold insertKeyed
+  rw [lookupL_foldl_insertKeyed, lookupL_foldl_insertKeyed]
+  apply h.foldl_eq'
+  intro x hx y hy z
+  by_cases h1 : (k == kf x) = true <;> by_cases h2 : (k == kf y) = true <;> simp [h1, h2]
+  have e1 : k = kf x := by simpa using h1
+  have e2 : k = kf y := by simpa using h2
+  exact (hc x hx y hy (e1.symm.trans e2)).symm
+
+/-- ... and when two entries compute the same key with different values, the map built
+does depend on the order (the condition above is necessary). -/
+theorem insertKeyed_collision_order_dependent :
+    ∃ l₁ l₂ : List (Key × Nat), l₁.Perm l₂ ∧
+      lookupL [1] (insertKeyed (fun _ => [1]) (·.2) l₁) ≠ lookupL [1] (insertKeyed (fun _ => [1]) (·.2) l₂) :=
+  ⟨[([7], 1), ([8], 2)], [([8], 2), ([7], 1)], by decide, by decide⟩
+
+/-- GENERAL (delete every collected key): deletes commute, so removing a set of keys
+collected in map order leaves the same map (`getRequiredIncludes`: the `excess` types). -/
+theorem eraseAll_order_independent {V : Type} (m : List (Key × V)) (ks₁ ks₂ : List Key)
+    (h : ks₁.Perm ks₂) : eraseAll m ks₁ = eraseAll m ks₂ :=
+  foldl_perm_of_comm eraseKey (fun b x y => eraseKey_comm b x y) h m
+
+/-- `findSplitCalls` in closed form: after the walk the set holds what it held before
+plus the calls the expression is split over OUTSIDE every merge over them.  (The
+conditional delete after a merge removes exactly what the merge's own subtree added.) -/
+theorem findSplitCalls_closed_form (t : STree) (S : List Key) (x : Key) :
+    x ∈ t.walk S ↔ x ∈ S ∨ x ∈ t.free := walk_mem t S x
+
+/-- `findSplitCalls` over a map literal, and `CallGraphStage.resolveForks` over the
+inputs of a call: although the walk inserts AND deletes, the final set is the same
+whatever the order in which the entries of ANY collection at ANY depth are visited. -/
+theorem findSplitCalls_order_independent {a b : STree} (h : STree.Reorder a b) (S : List Key)
+    (x : Key) : x ∈ a.walk S ↔ x ∈ b.walk S := by
+  rw [walk_mem, walk_mem, free_reorder h x]
+
+/-- Inserts and deletes do NOT commute in general (why `commFold_order_independent` does
+not apply to `findSplitCalls` and the closed form was needed). -/
+theorem insert_delete_do_not_commute :
+    (setInsert ([] : List Key) [1]).filter (· != [1]) ≠ setInsert (([] : List Key).filter (· != [1])) [1] := by
+  decide
+
+/-- `SplitExp.CallMode` as the code is now (fold of the element modes over the sorted keys) -/
+theorem callMode_order_independent (l₁ l₂ : List (Key × Option Mode)) (h : l₁.Perm l₂)
+    (hn : nodupKeys l₁ = true) : callMode l₁ = callMode l₂ := by
+  rw [callMode_eq_foldSorted, callMode_eq_foldSorted, isEmpty_perm h,
+    foldSorted_order_independent _ _ l₁ l₂ h hn]
+
+/-- The fold itself is NOT symmetric: over the map in the order given the mode of
+`{"a": null, "b": REF}` is null or unknown, that of `{"a": null, "b": 1}` simple or
+unknown (replayed on the real code by the provocations `SplitExp.CallMode(...)`; this
+was the defect repaired by iterating the sorted keys). -/
+theorem callModeIn_order_dependent :
+    (callModeIn [(1, some Mode.null), (2, some Mode.unknown)] ≠ callModeIn [(2, some Mode.unknown), (1, some Mode.null)]) ∧
+    (callModeIn [(1, some Mode.null), (2, none)] ≠ callModeIn [(2, (none : Option Mode)), (1, some Mode.null)]) := by
+  decide
+
+/-- `SplitExp.InnerMapSource` over a map literal as the code is now: a fold (keep the
+first source, replace it by a placeholder on a mismatch) over the sorted keys -/
+theorem innerMapSource_order_independent {V β : Type} (f : β → Key × V → β) (init : β)
+    (l₁ l₂ : List (Key × V)) (h : l₁.Perm l₂) (hn : nodupKeys l₁ = true) :
+    foldSorted f init l₁ = foldSorted f init l₂ := foldSorted_order_independent f init l₁ l₂ h hn
+
+/-- `RefExp.FindRefs` over the fork indices as the code is now: the references of each
+index source appended in the order of the sorted calls (key = call id, declaration id;
+assumed distinct) -/
+theorem refFindRefs_order_independent {V R : Type} (f : Key × V → List R) (l₁ l₂ : List (Key × V))
+    (h : l₁.Perm l₂) (hn : nodupKeys l₁ = true) : (sortK l₁).flatMap f = (sortK l₂).flatMap f := by
+  rw [sort_entries_order_independent l₁ l₂ h hn]
+
+/-- `resolveDisableMap`, all entries true, as the code is now: the entry with the
+smallest key stands for all -/
+theorem disableAllTrue_order_independent {V : Type} (l₁ l₂ : List (Key × V)) (h : l₁.Perm l₂)
+    (hn : nodupKeys l₁ = true) : (sortK l₁).head? = (sortK l₂).head? := by
+  rw [sort_entries_order_independent l₁ l₂ h hn]
+
+/-- GENERAL (return the first match; matches agree): `for _, e := range m { if r := f(e); r != nil { return r } }`
+gives the same result in every order EXACTLY WHEN any two entries that match agree on the
+result - in particular when at most one entry matches (`Node.find`: fully qualified names
+are unique, so at most one subtree holds the node). -/
+theorem uniqueMatch_order_independent {α β : Type} (f : α → Option β) (l₁ l₂ : List α) (h : l₁.Perm l₂)
+    (hu : ∀ x ∈ l₁, ∀ y ∈ l₁, (f x).isSome → (f y).isSome → f x = f y) :
+    l₁.findSome? f = l₂.findSome? f := by
+  cases h1 : l₁.findSome? f with
+  | none =>
+    have hn := List.findSome?_eq_none_iff.mp h1
+    exact (List.findSome?_eq_none_iff.mpr fun x hx => hn x (h.mem_iff.mpr hx)).symm
+  | some v =>
+    obtain ⟨x, hx, hfx⟩ := List.exists_of_findSome?_eq_some h1
+    cases h2 : l₂.findSome? f with
+    | none =>
+      have := List.findSome?_eq_none_iff.mp h2 x (h.mem_iff.mp hx)
+      rw [hfx] at this; cases this
+    | some w =>
+      obtain ⟨y, hy, hfy⟩ := List.exists_of_findSome?_eq_some h2
+      have := hu x hx y (h.mem_iff.mpr hy) (by simp [hfx]) (by simp [hfy])
+      rw [hfx, hfy] at this; exact this
+
+/-- `getUnknownKeys` (core/fork.go, 4 loops): the keys of a run-time map collected in map
+order; every consumer sorts them (`expandForkFromObj`, `TopNode.getParts`) or uses only
+their number and membership (`checkSplitLength`, `mapKeyRange.Allow` / `Length`). -/
+theorem unknownKeys_order_independent (k₁ k₂ : List Key) (h : k₁.Perm k₂) :
+    sortKeys k₁ = sortKeys k₂ ∧ k₁.length = k₂.length ∧ ∀ x, k₁.contains x = k₂.contains x :=
+  ⟨sort_keys_order_independent k₁ k₂ h, h.length_eq, fun x => contains_perm h x⟩
+
+/-- `Fork.getStages` as the code is now (core/stage.go): the stages of the subnodes
+appended in sorted order of the subnode names (the `stages` list of `_perf`) -/
+theorem getStages_order_independent {V R : Type} (f : Key × V → List R) (l₁ l₂ : List (Key × V))
+    (h : l₁.Perm l₂) (hn : nodupKeys l₁ = true) : (sortK l₁).flatMap f = (sortK l₂).flatMap f :=
+  refFindRefs_order_independent f l₁ l₂ h hn
+
+/-- `Fork.verifyPipelineOutput` as the code is now: the message of the first invalid
+entry in sorted key order (the `_errors` text of a pipeline fork) -/
+theorem verifyPipelineOutput_order_independent {W E : Type} (conv : Key → W → Except E Bytes)
+    (l₁ l₂ : List (Key × W)) (h : l₁.Perm l₂) (hn : nodupKeys l₁ = true) :
+    (firstFailure conv l₁).2 = (firstFailure conv l₂).2 := by
+  rw [convertToExp_order_independent conv l₁ l₂ h hn]
+
+/-! Non-vacuity of round 2. -/
+example : [1, 2, 3].findSome? (fun n => if n = 2 then some (n * 10) else none) = some 20 := by decide
+/-- two matching entries that disagree: the first match does depend on the order -/
+example : [1, 2].findSome? (fun n => some n) ≠ [2, 1].findSome? (fun n => some n) := by decide
+private def tA : STree := .split [1] true (.leaf [[3]])
+private def tB : STree := .merge [1] (.split [1] true (.split [2] true .nil))
+example : STree.Reorder (.cons tA (.cons tB .nil)) (.cons tB (.cons tA .nil)) := .swap ..
+example : (STree.cons tA (.cons tB .nil)).walk [] = [[2], [3], [1]] := by decide
+example : (STree.cons tB (.cons tA .nil)).walk [] = [[3], [1], [2]] := by decide
+example : (STree.cons tA (.cons tB .nil)).free = [[1], [3], [2]] := by decide
+/-- nested: the entries of a map inside a merge swapped -/
+example : STree.Reorder (.merge [5] (.cons tA (.cons tB .nil))) (.merge [5] (.cons tB (.cons tA .nil))) :=
+  .merge _ (.swap ..)
+example : callModeIn [(1, some Mode.array), (2, some Mode.null), (3, some Mode.array)] = Mode.array := by decide
+example : callModeIn ([] : List (Nat × Option Mode)) = Mode.null := by decide
+example : ∀ p ∈ [([7], 1), ([8], 1)], ∀ q ∈ [([7], 1), ([8], 1)], (fun _ => [1]) p = (fun _ : Key × Nat => [1]) q → p.2 = q.2 := by decide
+example : eraseAll [([1], 1), ([2], 2), ([3], 3)] [[3], [1]] = [([2], 2)] := by decide
+example : ([5] : List Nat).length ≤ 1 := by decide
 
 end Props.C10
